@@ -230,6 +230,10 @@ def merge_semantics(fi):
         cur = aug
         while True:
             par = pm.get(cur)
+            if isinstance(par, ast.Try) and any(cur is x for x in par.body) and len(par.body) == 1:
+                frag = par
+                cur = par
+                continue
             if not isinstance(par, ast.If):
                 break
             try:
@@ -248,6 +252,9 @@ def merge_semantics(fi):
                     _exec_block([frag], env, removed, child)
                 except _Unknown:
                     return None
+                except _TypeErr:
+                    table[(rn, cn)] = "TypeError"
+                    continue
                 v = env[child]
                 table[(rn, cn)] = "None" if v is None else "+".join(sorted(v.split("+")))
         return frag, removed, child, table
@@ -256,6 +263,10 @@ def merge_semantics(fi):
 
 class _Unknown(Exception):
     pass
+
+
+class _TypeErr(Exception):
+    """arithmetic on a missing (None) length: a TypeError at run time"""
 
 
 def _eval_test(t, env):
@@ -277,7 +288,7 @@ def _eval_val(e, env):
     if isinstance(e, ast.BinOp) and isinstance(e.op, ast.Add):
         a, b = _eval_val(e.left, env), _eval_val(e.right, env)
         if a is None or b is None:
-            raise _Unknown()       # would raise TypeError at run time
+            raise _TypeErr()
         return a + "+" + b
     raise _Unknown()
 
@@ -291,8 +302,17 @@ def _exec_block(stmts, env, removed, child):
         elif isinstance(st, ast.AugAssign) and isinstance(st.op, ast.Add) and norm(st.target) in env:
             a, b = env[norm(st.target)], _eval_val(st.value, env)
             if a is None or b is None:
-                raise _Unknown()
+                raise _TypeErr()
             env[norm(st.target)] = a + "+" + b
+        elif isinstance(st, ast.Try) and not st.finalbody:
+            try:
+                _exec_block(st.body, env, removed, child)
+                _exec_block(st.orelse, env, removed, child)
+            except _TypeErr:
+                hs = [h for h in st.handlers if h.type is None or norm(h.type) in ("TypeError", "Exception", "(TypeError,)") or (isinstance(h.type, ast.Tuple) and any(norm(x) in ("TypeError", "Exception") for x in h.type.elts))]
+                if not hs:
+                    raise
+                _exec_block(hs[0].body, env, removed, child)
         elif isinstance(st, ast.Assign):
             # a store to something else (e.g. the clone's own length in extract_subtree): not part of the merge
             continue
